@@ -4,11 +4,11 @@ VIEW View
 INVARIANTS Emit Identities
 CHECK_DEADLOCK FALSE
 CONSTANTS
-  Mode = "fn"
-  MaxDepth = 2
+  Mode = "cmp"
+  MaxDepth = 1
   W1 = "core"
   W2 = "core"
   W3 = "core"
   SlRange = 2
-  EmitAst = FALSE
+  EmitAst = TRUE
   KnownDeviations = {"filter-on-non-array", "merge-no-override", "operator-before-pipe", "pipe-into-literal", "argument-context-leak", "projection-skips-null", "sort-singleton", "null-vs-reference-equality", "parenthesised-operand", "multiselect-leading-star", "by-key-error-ignored"}
